@@ -66,7 +66,7 @@ func (c c08Case) key() string {
 }
 
 var allSpellings = []string{
-	"direct", "pcall", "xpcall", "mm-call", "mm-index", "mm-concat", "mm-wrap",
+	"pcall", "direct", "xpcall", "mm-call", "mm-index", "mm-concat", "mm-wrap",
 	"coroutine", "co-body", "co-wrap", "co-outer", "load", "gsub", "gsub-fn",
 }
 
@@ -209,8 +209,15 @@ const (
 	// loadfile() inside coroutine.wrap), which cannot be recovered and kills the
 	// whole check process. That defect belongs to the memory-accounting
 	// properties; memory use is bounded here by the pools.
-	guardMem = 0
 )
+
+// developer switch to reproduce the crash described above
+var guardMem = func() int {
+	if os.Getenv("VERIF_C08_GUARDMEM") != "" {
+		return 400_000_000
+	}
+	return 0
+}()
 
 func luaProgram(c c08Case) string {
 	var sb strings.Builder
